@@ -186,12 +186,18 @@ func VerifBGPShouldAnnounce(focus, nslices, nper int) {
 			slices = append(slices, sl)
 		}
 	}
-	// input assumption: an endpoint address lives on at most one node
+	// input assumption: an endpoint address lives on at most one node - except when the Service has a
+	// single endpoint address altogether (then the same address may be listed for several nodes, or
+	// without a node, with conflicting conditions: stale or duplicated slices)
+	single := true
+	for _, e := range entries {
+		single = vr.And(single, vr.Not(e.hasB))
+	}
 	for i := range entries {
 		for j := i + 1; j < len(entries); j++ {
 			share := vr.Or(vr.And(entries[i].hasA, entries[j].hasA), vr.And(entries[i].hasB, entries[j].hasB))
 			same := vr.And(entries[i].named == entries[j].named, entries[i].onMe == entries[j].onMe)
-			vr.Assume(vr.Implies(share, same))
+			vr.Assume(vr.Or(single, vr.Implies(share, same)))
 		}
 	}
 	c := &bgpController{myNode: vhMe, ignoreExcludeLB: ignoreExclude}
